@@ -26,6 +26,9 @@ CORE = [
     P("call-in-buffered-def", '<%def name="t()">${hole0()}</%def><%def name="d()" buffered="True">x <%call expr="t()">b ${hole1()}</%call> ${hole2()}</%def>${d()}', expect={"render_d": UNCH}),
     P("page-args", '<%page args="a, b=2"/>x ${a} ${hole1()}<% c = hole2() %>${c}'),
     P("capture", 'a ${capture(hole1)} ${hole2()}'),
+    # an exception inside a call with content, caught in the same body: the next construct must not see a stale caller
+    P("call-in-try", '<%def name="d()">${hole0()}</%def>\n% try:\n<%call expr="d()">b ${hole1()}</%call>\n% except:\ncaught ${hole2()}\n% endtry\n${hole3()}'),
+    P("ns-call-in-try", '<%def name="d(x)">${hole0()}</%def>\n% try:\n<%self:d x="${arghole1()}">b ${hole2()}</%self:d>\n% except:\n${hole3()}\n% endtry\n${hole4()}'),
 ]
 
 
